@@ -399,6 +399,53 @@ macro_rules! c13_vie_seq_u64 {
         }
     };
 }
+/// i64 sequence whose values the strategy's wire format may be unable to represent: Err, or an exact round trip.
+fn vie_seq_i64_edge<const N: usize, const L: usize>(s: VarIntStrategy, cls: [(i64, i64); N]) {
+    let enc = VarIntEncoder::new(s);
+    let mut vals = [0i64; 5];
+    let mut i = 0;
+    while i < N {
+        vals[i] = vany();
+        assume(vals[i] >= cls[i].0 && vals[i] <= cls[i].1);
+        i += 1;
+    }
+    let r = enc.encode_i64_sequence(&vals[..N]);
+    let bytes = match r {
+        Err(e) => {
+            forget(e);
+            zcover!(true, "encoder refused the unrepresentable values");
+            return;
+        }
+        Ok(b) => b,
+    };
+    let copy = rematerialise::<N, L>(&bytes);
+    let out = must(enc.decode_i64_sequence(&copy[..L]), "decoder refused the encoder's own output");
+    assert!(out.len() == N, "decoded sequence has a different length");
+    let mut i = 0;
+    while i < N {
+        assert!(out[i] == vals[i], "i64 sequence element does not round-trip");
+        i += 1;
+    }
+    zcover!(true, "opt: encoder accepted and the values round-trip");
+    forget(bytes);
+    forget(out);
+}
+macro_rules! c13_vie_seq_i64_edge {
+    ($name:ident, $tier:ident, $unwind:literal, $strat:ident, $n:literal, $l:literal, [$($cls:expr),*]) => {
+        zv_harness! {
+            name: $name,
+            prop: "C13",
+            tier: $tier,
+            unwind: $unwind,
+            stubs: [alloc::fmt::format => crate::common::stubs::fmt_format],
+            targets: "VarIntEncoder::{encode_i64_sequence, decode_i64_sequence} for the strategy of the instance, value classes outside the wire format's range",
+            bounds: "instance = (strategy, n, value class per element): each element symbolic inside its class",
+            oracle: "encode returns Err, or its bytes decode to exactly the input (never a silently different sequence)",
+            body: { vie_seq_i64_edge::<$n, $l>(VarIntStrategy::$strat, [$($cls),*]) }
+        }
+    };
+}
+
 macro_rules! c13_vie_seq_i64 {
     ($name:ident, $tier:ident, $unwind:literal, $strat:ident, $n:literal, $l:literal, [$($cls:expr),*]) => {
         zv_harness! {
@@ -451,7 +498,8 @@ c13_vie_seq_u64_edge!(c13_vie_group_seq_u64_n2_w1_w8, thorough, 12, GroupVarint,
 c13_vie_seq_u64!(c13_vie_group_seq_u64_n4_w1_w2_w3_w4, thorough, 12, GroupVarint, 4, 12, [ub(1), ub(2), ub(3), ub(4)]);
 c13_vie_seq_u64!(c13_vie_group_seq_u64_n5_w1, quick, 12, GroupVarint, 5, 8, [ub(1), ub(1), ub(1), ub(1), ub(1)]);
 c13_vie_seq_i64!(c13_vie_group_seq_i64_n1_pos_w4, thorough, 12, GroupVarint, 1, 6, [(1i64 << 24, (1i64 << 32) - 1)]);
-c13_vie_seq_i64!(c13_vie_group_seq_i64_n1_neg, thorough, 12, GroupVarint, 1, 10, [(i64::MIN, -1)]);
+// GroupVarint stores `v as u64` in at most 4 bytes: every negative value is outside its range (refused since fix 8b37062)
+c13_vie_seq_i64_edge!(c13_vie_group_seq_i64_n1_neg, thorough, 12, GroupVarint, 1, 10, [(i64::MIN, -1)]);
 c13_vie_seq_u64!(c13_vie_prefixfree_seq_u64_n0, thorough, 12, PrefixFree, 0, 1, []);
 c13_vie_seq_u64!(c13_vie_prefixfree_seq_u64_n1_w8, quick, 12, PrefixFree, 1, 10, [ub(8)]);
 c13_vie_seq_u64!(c13_vie_prefixfree_seq_u64_n2_w1_w8, thorough, 12, PrefixFree, 2, 12, [ub(1), ub(8)]);
@@ -619,7 +667,7 @@ macro_rules! c13_dataio_str {
 }
 c13_dataio_bytes!(c13_dataio_bytes_k0, quick, 12, 0);
 c13_dataio_bytes!(c13_dataio_bytes_k3, quick, 12, 3);
-c13_dataio_str!(c13_dataio_str_k0, thorough, 12, 0);
+c13_dataio_str!(c13_dataio_str_k0, probe, 12, 0);
 c13_dataio_str!(c13_dataio_str_k3, quick, 12, 3);
 
 // ---------------------------------------------------------------------------------------------
@@ -854,6 +902,6 @@ zv_harness! {
     }
 }
 c13_complex_batch!(c13_complex_batch_k0_meta, quick, 4, 0, true);
-c13_complex_batch!(c13_complex_batch_k1_meta, thorough, 24, 1, true);
+c13_complex_batch!(c13_complex_batch_k1_meta, probe, 24, 1, true);
 c13_complex_batch!(c13_complex_batch_k0_fast, quick, 24, 0, false);
-c13_complex_batch!(c13_complex_batch_k2_fast, thorough, 24, 2, false);
+c13_complex_batch!(c13_complex_batch_k2_fast, probe, 24, 2, false);
